@@ -31,7 +31,7 @@ ASSUMPTIONS = [
 ]
 MANDATORY = ["take_axis:negative-position", "sort_axis", "sort_axis:key", "sort_axis:dict", "take_axis:label", "take_axis:position", "take_axis:repeats", "compress_axis",
              "compress:nd", "dropna:minvalid", "dropna:default", "dropna:1d", "dropna:partial", "fillna", "fillna:inplace", "setna:value",
-             "setna:list", "setna:mask", "setna:list+mask", "setna:int-data", "axis:not-first", "labels:shuf", "labels:s"]
+             "setna:list", "setna:mask", "setna:list+mask", "setna:int-data", "setna:near-miss-value", "setna:near-miss-value-int-data", "axis:not-first", "labels:shuf", "labels:s"]
 
 
 def budget(tier):
@@ -90,8 +90,15 @@ def case_st(draw):
         p = {"value": draw(st.sampled_from([0.0, -1, 7.5, "missing"])), "inplace": draw(st.booleans())}
     elif op == "setna":
         present = [v for v in vals if v != "NaN"]
-        form = draw(st.sampled_from(["value", "list", "mask", "mask-dimarray", "absent", "list+mask"]))
-        if form == "value" and present:
+        form = draw(st.sampled_from(["value", "list", "mask", "mask-dimarray", "absent", "list+mask", "near"]))
+        finite = [v for v in present if v not in ("inf", "-inf")]
+        if form == "near" and finite:
+            # values that no cell equals, but that are next to ones that do (x + 0.5 over integers, the integral part of a fractional x)
+            near = [v + draw(st.sampled_from([0.5, -0.5, 0.25])) for v in draw(st.lists(st.sampled_from(finite), min_size=1, max_size=2))]
+            near += [int(v) for v in finite if v != int(v)][:1]
+            near = [v for v in near if v not in present] or [99.5]
+            p["value"] = near[0] if draw(st.booleans()) else near + draw(st.lists(st.sampled_from(finite), max_size=1))
+        elif form == "value" and present:
             p["value"] = draw(st.sampled_from(present))
         elif form == "list" and present:
             p["value"] = draw(st.lists(st.sampled_from(present + [99]), min_size=1, max_size=3))
@@ -331,6 +338,8 @@ def run_case(case):
                 mask[idx] = any((not core.isnan(exp[idx])) and exp[idx] == x for x in vs)
             arg = p["value"]
             cl.add("setna:list" if isinstance(arg, list) else "setna:value")
+            if form == "near":
+                cl.add("setna:near-miss-value" + ("-int-data" if spec["vk"] == "i" else ""))
         exp[mask] = float("nan")
         if p["inplace"]:
             lib(lambda: a.setna(arg, inplace=True), what=what, sig=sig)
